@@ -7,10 +7,12 @@ import (
 	"encoding/json"
 	"flag"
 	"fmt"
+	"io"
 	"os"
 	"strings"
 	"time"
 
+	"verifsim/worlds/core"
 	"verifsim/worlds/runner"
 
 	_ "verifsim/worlds/all"
@@ -62,6 +64,14 @@ func main() {
 		}
 	}
 	switch os.Args[1] {
+	case "child":
+		h := core.Child(*prop)
+		if h == nil {
+			fmt.Fprintln(os.Stderr, "no child handler for", *prop)
+			os.Exit(2)
+		}
+		in, _ := io.ReadAll(os.Stdin)
+		realOut.Write(h(in))
 	case "search":
 		emit(runner.SearchFrom(*prop, *tier, *seed, *worker, *workers, *budget, *maxRuns, ks, *startIdx, *progress, func(s *runner.Summary) { emit(s) }))
 	case "hashes":
